@@ -24,6 +24,11 @@ pub use filter::{
     FilterConfig,
 };
 pub use recv::UnrecognizedFrame;
+#[cfg(feature = "verif-hooks")]
+pub(crate) use filter::{
+    rate_limiter::{Limiter as VerifLimiter, Quota as VerifQuota},
+    Filter as VerifFilter,
+};
 
 /// Configuration for the sockets to listen on.
 ///
@@ -97,6 +102,10 @@ impl Socket {
     /// If this struct is dropped, the send/recv tasks will shutdown.
     /// This needs to be run inside of a tokio executor.
     pub(crate) async fn new(config: SocketConfig) -> Result<Self, Error> {
+        #[cfg(feature = "verif-hooks")]
+        if let Some(wire) = crate::verif::take_virtual_wire() {
+            return Socket::new_virtual(config, wire).await;
+        }
         let SocketConfig {
             executor,
             filter_config,
@@ -165,6 +174,55 @@ impl Socket {
         let (recv, recv_exit) = RecvHandler::spawn(recv_config);
         // spawn the sender handler
         let (send, sender_exit) = SendHandler::spawn(executor, send_ipv4, send_ipv6);
+
+        Ok(Socket {
+            send,
+            recv,
+            sender_exit: Some(sender_exit),
+            recv_exit: Some(recv_exit),
+        })
+    }
+}
+
+#[cfg(feature = "verif-hooks")]
+impl Socket {
+    /// Builds the send/recv tasks over a virtual wire instead of UDP sockets. The recv task feeds
+    /// every injected datagram to the unchanged `RecvHandler::handle_inbound`; the send task
+    /// encodes every outbound packet exactly as the UDP send task does.
+    async fn new_virtual(
+        config: SocketConfig,
+        wire: crate::verif::VirtualWireEnd,
+    ) -> Result<Self, Error> {
+        let SocketConfig {
+            executor,
+            filter_config,
+            listen_config: _,
+            ban_duration,
+            expected_responses,
+            local_node_id,
+            protocol_identity,
+        } = config;
+        let crate::verif::VirtualWireEnd {
+            inbound,
+            outbound,
+            expected_responses: expected_responses_slot,
+        } = wire;
+        *expected_responses_slot.lock() = Some(expected_responses.clone());
+
+        // The `RecvHandler` struct owns a socket; give it one that is never read.
+        let unused = Arc::new(UdpSocket::bind((Ipv4Addr::LOCALHOST, 0)).await?);
+        let recv_config = RecvHandlerConfig {
+            filter_config,
+            executor: executor.clone(),
+            recv: unused,
+            second_recv: None,
+            local_node_id,
+            protocol_identity,
+            expected_responses,
+            ban_duration,
+        };
+        let (recv, recv_exit) = RecvHandler::spawn_virtual(recv_config, inbound);
+        let (send, sender_exit) = SendHandler::spawn_virtual(executor, outbound);
 
         Ok(Socket {
             send,
